@@ -30,15 +30,14 @@ ASSUMPTIONS = [
 NOT_DEMONSTRATED = (
     "the order only decides (a) the first-use numbering of NumericSampleIds and the index order of Pedigree.add_individual, which are labels used consistently "
     "(C05.R1 zips the same family sequence with the solver's result; read_comparator_t never looks at the sample id) and (b) the key insertion order of per-sample result "
-    "dicts that are read by key; a sweep of 16 hash seeds on trio / quartet inputs for phase --use-ped-samples (VCF, read list, recombination list) and genotype gave identical files. "
-    "Not demonstrated, therefore not a finding"
+    "dicts that are read by key; a sweep of 12-16 hash seeds on trio / quartet inputs for genotype (and polyphase) gave identical files. "
+    "Not demonstrated for these commands, therefore not a finding (the one demonstrated consequence, the row order of phase --changed-genotype-list with --use-ped-samples, was repaired in 41cc603)"
 )
 
 # (function, how, source text) -> reason; each confirmed by reading
 REVIEWED = {
     ("whatshap.cli.genotype.run_genotype", "for", "samples"): "per-sample results are stored under the sample's own key (set_genotypes_of / set_genotype_likelihoods_of); " + NOT_DEMONSTRATED,
-    ("whatshap.cli.phase.setup_families", "for", "samples"): "family member order follows `samples` (list(set) with --use-ped-samples, frozenset in genotype); " + NOT_DEMONSTRATED,
-    ("whatshap.pedigree.PedReader.samples", "list", "samples"): "returns the PED individuals in set order; consumed by phase --use-ped-samples -> setup_families; " + NOT_DEMONSTRATED,
+    ("whatshap.cli.phase.setup_families", "for", "samples"): "family member order follows `samples`; since fix 41cc603 phase passes a list in VCF or sorted PED order, only genotype still passes a frozenset; " + NOT_DEMONSTRATED,
     ("whatshap.cli.polyphase.run_polyphase", "for", "samples"): "each sample is phased independently and its result stored under components[sample]/superreads[sample]; the writer sets every target call by sample name; " + NOT_DEMONSTRATED,
     ("whatshap.cli.polyphasegenetic.run_polyphasegenetic", "for", "samples"): "each sample is phased independently and stored under its own key",
     ("whatshap.cli.polyphasegenetic.determine_pedigree", "for", "samples"): "validation loop (raises for an offending sample) and construction of dicts keyed by the sample that are only read by key",
